@@ -42,12 +42,7 @@ func vSymPrefix(k *crypto.AESKey) string {
 
 func vCryptoInstall() {
 	vCryptoSeq = 0
-	rt.Replace(vCryptoPkg+".UnmarshalEd25519PublicKeyProto", func(b []byte) (crypto.PubKey, error) {
-		if len(b) == 0 {
-			return nil, errors.New("verif: empty key")
-		}
-		return &vPub{id: string(b)}, nil
-	})
+	rt.Replace(vCryptoPkg+".UnmarshalEd25519PublicKeyProto", vPubFromProto)
 	rt.Replace(vCryptoPkg+".UnmarshalEd25519PrivateKeyProto", func(b []byte) (crypto.PrivKey, error) {
 		if len(b) <= 5 || string(b[:5]) != "priv:" {
 			return nil, errors.New("verif: not a private key")
